@@ -93,6 +93,12 @@ func runC16(c *core.Ctx) {
 
 	c.Doc("C16.mailbox", "mailboxes are never closed (Receive sends to a mailbox after releasing the service lock)", 1)
 	ruleMailboxNeverClosed(c)
+	// a terminate request is served by the object's own mailbox goroutine and ends in
+	// Remove, which needs the service lock exclusively: a sender parked on a full mailbox
+	// with the read lock held keeps it for ever, the hook never runs and every other object
+	// of the service becomes unreachable (rule shared with C12)
+	c.Doc("C12.locks", "bus/**: every mutex released on every path; no blocking channel operation while a mutex is held — rule shared with C12", 30)
+	ruleBusLocks(c, core.NewLockCache())
 
 	// the handler of a client-side object is dropped only by the function that also forgets
 	// its table entry: a stale entry would later designate another object's (recycled) handler
